@@ -368,7 +368,7 @@ fn derived_table(
     let mut result = table.clone();
     result.join(from, to, g);
 
-    let mut q = VecDeque::from([from]);
+    let mut q = VecDeque::from([from, to]);
 
     while let Some(row) = q.pop_front() {
         for rel in expanded_rels {
